@@ -13,7 +13,7 @@ import (
 
 // op is one write operation (and the read that mirrors it).
 type op struct {
-	K     string   `json:"k"`               // u f s ue se ff bytes align | u8 u16 u24 u32 u48 u64 i16 i32 i64 zeros str str0 matrix
+	K     string   `json:"k"`               // u f s ue se ff bytes align trail | u8 u16 u24 u32 u48 u64 i16 i32 i64 zeros str str0 matrix
 	N     int      `json:"n,omitempty"`     // width in bits (u, s) or byte count (zeros)
 	V     uint64   `json:"v,omitempty"`     // unsigned value
 	S     int64    `json:"s,omitempty"`     // signed value
@@ -32,6 +32,15 @@ type seqCase struct {
 	// ("" = bytes.Buffer / bytes.Reader; see newSink / newSource)
 	Dst string `json:"dst,omitempty"`
 	Src string `json:"src,omitempty"`
+	// ebsp with End == "trailing": Czw cabac_zero_words (0x0000) follow the trailing
+	// bits, written in calls of CzwW bits (8, 16 or 32); Final03: the reader is given
+	// the complete-NAL-unit form of the stream, with the final 03 of 7.4.1 appended
+	// (only when the stream ends in a zero word); EndRead: how the reader consumes
+	// the end: "" ReadRbspTrailingBits | "bits" Read calls | "bytes" ReadBytes calls
+	Czw     int    `json:"czw,omitempty"`
+	CzwW    int    `json:"czw_w,omitempty"`
+	Final03 bool   `json:"final03,omitempty"`
+	EndRead string `json:"end_read,omitempty"`
 }
 
 // plainWriter exposes Write only (no WriteByte, no ReadFrom): a file or a socket as the library sees it.
@@ -331,8 +340,19 @@ func genSeq(r *runner.Rand, pair string) *seqCase {
 			case k < 18:
 				n := r.Intn(9)
 				add(op{K: "bytes", B: alphaBytes(r, n)}, 8*n)
-			default:
+			case k < 19:
 				add(op{K: "align"}, (8-pos%8)%8)
+			default:
+				// rbsp_trailing_bits in the middle: the writer is used further afterwards
+				// (cabac_zero_words, or several RBSPs through one writer)
+				if r.Chance(1, 2) {
+					alignWithU()
+				}
+				add(op{K: "trail"}, 8-pos%8)
+				if r.Chance(1, 2) {
+					n := 1 + r.Intn(4)
+					add(op{K: "bytes", B: make([]byte, n)}, 8*n)
+				}
 			}
 		case "fsw-reader":
 			if r.Chance(2, 3) {
@@ -397,6 +417,11 @@ func genSeq(r *runner.Rand, pair string) *seqCase {
 		sc.End = "trailing"
 		if r.Chance(1, 6) {
 			sc.End = "stuff"
+		} else if r.Chance(1, 3) {
+			sc.Czw = r.PickInt(1, 1, 2, 3, 5)
+			sc.CzwW = r.PickInt(8, 16, 16, 32)
+			sc.Final03 = r.Chance(2, 3)
+			sc.EndRead = r.PickStr("", "", "bits", "bytes")
 		}
 		// MoreRbspData scans to the end of the stream: all boundaries for
 		// short sequences, a sample for long ones
@@ -444,6 +469,8 @@ func refApply(w *bitw.W, o *op) {
 		w.Put(0, 8)
 	case "align":
 		w.AlignZero()
+	case "trail":
+		w.TrailingBits()
 	case "u8":
 		w.Put(o.V, 8)
 	case "u16":
@@ -504,6 +531,9 @@ func checkSeq(c *runner.Ctx, sc *seqCase) bool {
 	switch sc.End {
 	case "trailing":
 		rw.TrailingBits()
+		for i := 0; i < sc.Czw; i++ {
+			rw.Put(0, 16)
+		}
 	default:
 		rw.AlignZero()
 	}
@@ -568,6 +598,8 @@ func checkSeq(c *runner.Ctx, sc *seqCase) bool {
 					}
 				case "align":
 					w.StuffByteWithZeros()
+				case "trail":
+					w.WriteRbspTrailingBits()
 				}
 				if got := int(w.NrBitsInBuffer()); got != bounds[i+1]%8 && wnote == "" {
 					wnote = fmt.Sprintf("after op %d (%s) NrBitsInBuffer() = %d, %d bits written so far", i, o.K, got, bounds[i+1])
@@ -575,6 +607,17 @@ func checkSeq(c *runner.Ctx, sc *seqCase) bool {
 			}
 			if sc.End == "trailing" {
 				w.WriteRbspTrailingBits()
+				for left := 16 * sc.Czw; left > 0; {
+					n := sc.CzwW
+					if n <= 0 || n > left {
+						n = left
+					}
+					if n > 32 {
+						n = 32
+					}
+					w.Write(0, n)
+					left -= n
+				}
 			} else {
 				w.StuffByteWithZeros()
 			}
@@ -887,7 +930,16 @@ func lastOneBit(b []byte) int {
 func readEBSP(c *runner.Ctx, sc *seqCase, rbsp []byte, bounds []int, dataBits int, wit interface{}) bool {
 	fam := "ebsp"
 	esc := bitw.Escape(rbsp)
+	if sc.Final03 {
+		var appended bool
+		if esc, appended = bitw.EscapeFinal(rbsp); appended {
+			c.Count("seq_streams_read_with_final_03", 1)
+		}
+	}
 	escIdx := bitw.EscapedIndex(rbsp)
+	if sc.Czw > 0 {
+		c.Seen("seq_zero_words_after_trailing_bits", fmt.Sprintf("words=%d write-width=%d final03=%v end-read=%q", sc.Czw, sc.CzwW, sc.Final03, sc.EndRead))
+	}
 	c.Count("seq_escapes_in_reference_streams", int64(len(esc)-len(rbsp)))
 	if len(esc) > len(rbsp) {
 		c.Count("seq_streams_with_escapes", 1)
@@ -979,6 +1031,12 @@ func readEBSP(c *runner.Ctx, sc *seqCase, rbsp []byte, bounds []int, dataBits in
 						return false
 					}
 				}
+			case "trail":
+				n := bounds[i+1] - bounds[i]
+				if got := r.Read(n); uint64(got) != uint64(1)<<uint(n-1) || r.AccError() != nil {
+					fail("value/trail", fmt.Sprintf("op %d: %d trailing bits read as %#x (err %v)", i, n, got, r.AccError()))
+					return false
+				}
 			}
 			if bounds[i+1] > 0 {
 				if m := checkCounters(r, bounds[i+1], escIdx); m != "" {
@@ -995,12 +1053,66 @@ func readEBSP(c *runner.Ctx, sc *seqCase, rbsp []byte, bounds []int, dataBits in
 		if !readOps(r, len(sc.Ops), true) {
 			return
 		}
-		if sc.End == "trailing" {
+		if sc.End == "trailing" && sc.EndRead != "" {
+			// the trailing bits and the zero words through Read / ReadBytes, then one
+			// call more than the stream holds
+			pos := dataBits
+			n := 8 - pos%8
+			if got := r.Read(n); uint64(got) != uint64(1)<<uint(n-1) || r.AccError() != nil {
+				fail("value/trailing-bits", fmt.Sprintf("%d trailing bits read as %#x (err %v)", n, got, r.AccError()))
+				return
+			}
+			pos += n
+			if m := checkCounters(r, pos, escIdx); m != "" {
+				fail("counters", fmt.Sprintf("after the trailing bits: %s (escaped stream %x)", m, esc))
+				return
+			}
+			for pos < 8*len(rbsp) {
+				if sc.EndRead == "bytes" {
+					if got := r.ReadBytes(2); r.AccError() != nil || !bytes.Equal(got, []byte{0, 0}) {
+						fail("value/zero-word", fmt.Sprintf("ReadBytes(2) of a zero word at payload bit %d = %x (err %v) (escaped stream %x)", pos, got, r.AccError(), esc))
+						return
+					}
+				} else {
+					if got := r.Read(16); r.AccError() != nil || got != 0 {
+						fail("value/zero-word", fmt.Sprintf("Read(16) of a zero word at payload bit %d = %#x (err %v) (escaped stream %x)", pos, got, r.AccError(), esc))
+						return
+					}
+				}
+				pos += 16
+				if m := checkCounters(r, pos, escIdx); m != "" {
+					fail("counters", fmt.Sprintf("after a zero word: %s (escaped stream %x)", m, esc))
+					return
+				}
+			}
+			if sc.EndRead == "bytes" {
+				if got := r.ReadBytes(1); got != nil || r.AccError() == nil {
+					fail("no-error-past-end", fmt.Sprintf("ReadBytes(1) past the end returned %x, AccError %v", got, r.AccError()))
+					return
+				}
+			} else {
+				r.Read(1 + len(sc.Ops)%8)
+				if r.AccError() == nil {
+					fail("no-error-past-end", "Read past the end left AccError nil")
+					return
+				}
+			}
+			if m := checkEndCounters(r, len(esc)); m != "" {
+				fail("counters-at-end", fmt.Sprintf("a %s call hit the end: %s (escaped stream %x)", sc.EndRead, m, esc))
+				return
+			}
+			c.Seen("end_of_stream_reached_by", "Read/ReadBytes past the end: "+sc.EndRead)
+		} else if sc.End == "trailing" {
 			if err := r.ReadRbspTrailingBits(); err != nil || r.AccError() != nil {
 				fail("trailing-bits-rejected", fmt.Sprintf("ReadRbspTrailingBits at the stop bit: %v / AccError %v (rbsp %x)", err, r.AccError(), rbsp))
 				return
 			}
 			c.Seen("trailing_bits_check", "accepted-at-stop-bit")
+			if m := checkEndCounters(r, len(esc)); m != "" {
+				fail("trailing-bits-counters-at-end", fmt.Sprintf("ReadRbspTrailingBits scanned to the end: %s (escaped stream %x)", m, esc))
+				return
+			}
+			c.Seen("end_of_stream_reached_by", "ReadRbspTrailingBits")
 		} else {
 			if pad := 8*len(rbsp) - dataBits; pad > 0 {
 				if got := r.Read(pad); got != 0 || r.AccError() != nil {
@@ -1018,7 +1130,13 @@ func readEBSP(c *runner.Ctx, sc *seqCase, rbsp []byte, bounds []int, dataBits in
 			}
 			if r.AccError() == nil {
 				fail("no-error-past-end", "Read(1) past the end left AccError nil")
+				return
 			}
+			if m := checkEndCounters(r, len(esc)); m != "" {
+				fail("counters-at-end", fmt.Sprintf("Read(1) hit the end: %s (escaped stream %x)", m, esc))
+				return
+			}
+			c.Seen("end_of_stream_reached_by", "Read(1) past the end")
 		}
 	})
 	if pi == nil && key == "" && sc.TrailAt >= 0 && sc.TrailAt <= len(sc.Ops) && T >= 0 {
@@ -1041,6 +1159,9 @@ func readEBSP(c *runner.Ctx, sc *seqCase, rbsp []byte, bounds []int, dataBits in
 				c.Seen("trailing_bits_check", "rejected-before-stop-bit")
 			default:
 				c.Seen("trailing_bits_check", "accepted-at-stop-bit")
+				if m := checkEndCounters(r, len(esc)); m != "" {
+					fail("trailing-bits-counters-at-end", fmt.Sprintf("ReadRbspTrailingBits at bit %d scanned to the end: %s (escaped stream %x)", p, m, esc))
+				}
 			}
 		})
 	}
